@@ -102,7 +102,7 @@ func nativeWords(p *Prog, l *Ledger, typeName string) ([]string, *ssa.Function, 
 	m := NewInterpModel(p, "builtin/"+typeName)
 	m.EmitTests = true
 	m.KeepAsEvent = func(c *ssa.Function) bool {
-		return c.Name() == "toNumber" || c.Name() == "toInt64" || c.Name() == "sortedKeys"
+		return fnName(c) == "toNumber" || fnName(c) == "toInt64" || fnName(c) == "sortedKeys"
 	}
 	mc := m.Explore(fn, []AV{Sym("n"), Sym("i"), Sym("arguments")}, nil)
 	l.States += mc.States
@@ -310,7 +310,7 @@ func freshSlice(v ssa.Value, seen map[ssa.Value]bool) (bool, string) {
 		if b, ok := x.Call.Value.(*ssa.Builtin); ok && b.Name() == "append" {
 			return freshSlice(x.Call.Args[0], seen)
 		}
-		if c := x.Call.StaticCallee(); c != nil && c.Name() == "sortedKeys" {
+		if c := x.Call.StaticCallee(); c != nil && fnName(c) == "sortedKeys" {
 			return true, "helper result"
 		}
 		return false, "result of " + describe(v)
